@@ -6,7 +6,13 @@ from vp.blocks import BLOCKS
 CONTROL = [b"Base Header Level: 2", b"HTML Header Level: 3", b"LaTeX Header Level: 2", b"Language: de", b"Quotes Language: fr", b"LaTeX Mode: memoir", b"ODF Header Level: 2", b"EPUB Header Level: 2", b"XHTML Header Level: 3"]
 OTHER = [b"Title: A title", b"Author: Some One", b"Date: 2020-01-01", b"CSS: style.css", b"HTML Header: <script src=\"x.js\"></script>", b"XHTML Header: <meta name=\"x\"/>",
          b"Keywords: a, b & c", b"my custom key: \"quoted\" <v> & more", b"LaTeX Input: mmd6-article-leader", b"LaTeX Footer: mmd6-article-footer", b"Copyright: 2020 \xc2\xa9 me",
-         b"Subtitle: 100% $sure_ #1 {x} ~^\\", b"Affiliation: line one\n    line two", b"latex config: article", b"odf header: <x/>", b"Revision: 1.0", b"Web: http://example.com/?a=1&b=2"]
+         b"Subtitle: 100% $sure_ #1 {x} ~^\\", b"Affiliation: line one\n    line two", b"latex config: article", b"odf header: <x/>", b"Revision: 1.0", b"Web: http://example.com/?a=1&b=2",
+         b"Email: me@example.com", b"Author: A Person <a.person@example.org>"]
+# MultiMarkdown-specific body blocks: everything whose rendering draws on per-document state (counters, labels, the random generator, note lists)
+MMDBLOCKS = [b"mail <user@example.com> auto\n\n", b"a [mail](mailto:x@y.org) link\n\n", b"note[^n1] here\n\n[^n1]: the note\n\n", b"cite[#c1] here\n\n[#c1]: the source\n\n",
+             b"gloss[?g1] and abbr[>a1]\n\n[?g1]: the term\n[>a1]: the abbreviation\n\n", b"| a | b |\n|---|:-:|\n| c | d |\n[Caption][tl]\n\n", b"![fig](f.png)\n\n", b"math \\\\(x^2\\\\) and $y_1$\n\n",
+             b"term\n: definition\n\n", b"{{TOC}}\n\n", b"# Title #\n\nsee [Title][] and [ref][r1]\n\n[r1]: http://example.com/ \"t\" class=c\n\n", b"<div>\nraw *html*\n</div>\n\n",
+             b"{++add++} {--del--} {~~a~>b~~} {==hi==}{>>c<<}\n\n", b"\"quoted\" 'single' -- --- ... H~2~O x^2^\n\n", b"inline[^an inline note] and [?(term) inline gloss]\n\n"]
 FORMATS = [("html", 0), ("latex", 2), ("beamer", 3), ("memoir", 4)]
 EXTS = [mmd.EXT_DEFAULT, mmd.EXT_DEFAULT & ~mmd.EXT["SMART"], mmd.EXT["NOTES"] | mmd.EXT["CRITIC"] | mmd.EXT["NO_LABELS"] | mmd.EXT["PROCESS_HTML"]]
 C, S = mmd.EXT["COMPLETE"], mmd.EXT["SNIPPET"]
@@ -29,6 +35,9 @@ def bodies(tier):
     step = 1
     out += [b[i] + b[j] for i, j in pairs[::step]]
     out.append(b"text[^1] and \"quotes\" -- dash\n\n[^1]: note\n\n# H\n\n| a | b |\n|---|---|\n| c | d |\n\n")
+    out += MMDBLOCKS
+    out += [m + x for m in MMDBLOCKS for x in (b[0], b[10], b[24])] + [x + m for m in MMDBLOCKS for x in (b[0], b[10], b[24])]
+    if tier != "quick": out += [m + n for m in MMDBLOCKS for n in MMDBLOCKS]
     return out
 
 def make_case(metas, bods):
@@ -57,9 +66,9 @@ def make_case(metas, bods):
 
 def run(tier):
     rep = core.Report("C20", tier, "exploration")
-    rep.rule = ("grid: bodies (each self-contained block of vp/blocks.py alone and in ordered pairs, plus a notes/table document) x metadata blocks {none, each rendering-control key, each of %d other keys with benign and "
+    rep.rule = ("grid: bodies (each self-contained block of vp/blocks.py alone and in ordered pairs, plus a notes/table document) plus %d MultiMarkdown-specific blocks (mail autolink, mailto, notes, citation, glossary, abbreviation, captioned table, figure, math, definition list, TOC, cross-references, raw HTML, CriticMarkup, smart typography) alone and combined) x metadata blocks {none, each rendering-control key, each of %d other keys with benign and "
                 "reserved-character values, pairs, YAML-fenced, mixed} x {html, latex, beamer, memoir} x 3 extension sets x {default, complete, snippet}; oracles: snippet inside complete; default = complete iff a key "
-                "outside the control set is present; snippet with unrelated metadata = snippet of the bare body; distinct = distinct (document, format, options)" % len(OTHER))
+                "outside the control set is present; snippet with unrelated metadata = snippet of the bare body; distinct = distinct (document, format, options)" % (len(MMDBLOCKS), len(OTHER)))
     rep.assumptions = ["bibtex, mmd header/footer and transclude base are kept out of the default-choice oracle (the statement does not settle them)", "bodies contain no [%variable] references"]
     mmd.so_path()
     metas, bods = meta_blocks(), bodies(tier)
